@@ -734,5 +734,5 @@ def generate(ctx):
     r = anchors.build(REPO, "C19", ["DPL.Model.Moments", "DPL.Model.Calibration"], anchors.c19_specs(), opens="DPL.Cont")
     ctx.count("formula_anchors", r["obligations"])
     if r["errors"]:
-        r["error"] = "; ".join(r["errors"])
+        r["unavailable"] = r["errors"]      # anchors that could not be located / translated (not failed obligations)
     return r
